@@ -50,4 +50,6 @@ Definition C19_var_statement : Prop :=
 Definition C19_bit_statement : Prop :=
   forall byte bit trailing, bit < 8 ->
     unpack DTBit bit (byte :: trailing) = Some (DBool (N.testbit byte bit), if bit =? 7 then 1%nat else 0%nat) /\
-    bit_next bit = (bit + 1) mod 8.
+    bit_next bit = (bit + 1) mod 8 /\
+    (* packing the byte of flags gives that one byte, and unpacking it gives the flag back *)
+    (byte < 256 -> pack DTBit (DInt (Z.of_N byte)) = Some [byte]).
